@@ -2,7 +2,7 @@
    Maven domain predicate.  The parsed version is printed in the shape of semver.VerifDump
    (kind sv_parse of harness/go/cmd/implrun/semver.go). *)
 From DepsDev Require Import Lib.Base Lib.Sx Semver.Version Semver.Maven Semver.Gem Semver.Compare
-  Semver.MavenParse Semver.GemParse Semver.MavenDomain Semver.MavenItems Semver.GemDomain Semver.GemSegments Spec.MavenSpec Spec.GemSpec.
+  Semver.MavenParse Semver.GemParse Semver.MavenDomain Semver.MavenPrintable Semver.MavenItems Semver.GemDomain Semver.GemSegments Spec.MavenSpec Spec.GemSpec.
 Local Open Scope Z_scope.
 
 Definition sx_ext (e : extension) : sx :=
@@ -107,6 +107,7 @@ Fixpoint item_eqb (a b : item) : bool :=
          end) la lb
   | _, _ => false
   end.
+Definition k_maven_printable : bytes := [115;118;109;95;109;97;118;101;110;95;112;114;105;110;116;97;98;108;101]%N. (* svm_maven_printable *)
 Definition k_dmvn_wide : bytes := [115;118;109;95;100;109;118;110;95;119;105;100;101]%N.                 (* svm_dmvn_wide *)
 Definition k_dmvn : bytes := [115;118;109;95;100;109;118;110]%N.                                  (* svm_dmvn *)
 
@@ -158,6 +159,11 @@ Definition run_MvnGem (kind : bytes) (a : sx) : option sx :=
                   end
               | _ => SL [SB sym_err]
               end
+          | _ => badcase end)
+  else if bytes_eqb kind k_maven_printable then
+    (* (str) -> (hypothesis printable_b of the C10 round-trip theorem on the parsed element list) *)
+    Some (match a with
+          | SL [SB s] => match mvn_elems_of s with Some l => SL [sx_bool (printable_b l)] | None => SL [SB sym_err] end
           | _ => badcase end)
   else if bytes_eqb kind k_spec_gem_norm then
     (* (str) -> ("ok" version string as Gem::Version prints it) | ("err") *)
